@@ -653,3 +653,7 @@ impl<K: Hash + Eq, V, FH: BuildHasher, RH: BuildHasher> Cache<K, V>
         self.protected.is_empty() && self.probationary.is_empty()
     }
 }
+
+#[cfg(feature = "verif-hooks")]
+#[path = "/verif/kani/hooks_segmented.rs"]
+mod verif_hooks;
